@@ -116,6 +116,23 @@ CHECKS["C20"] = dict(
     ref="DESIGN.md section 4, C20",
 )
 
+CHECKS["C03"] = dict(
+    category="exploration",
+    technique="bounded-exhaustive product of call shapes x callee actions x caller read positions x types against a reference interpreter",
+    text="The complete product of call shape, parameter type, callee action and the caller variable read afterwards (every parameter "
+         "and local, selected by an input) is compiled and run; results are compared with a by-value, fresh-frame reference interpreter.",
+    note="Trusted: refsem call semantics. Call graphs beyond the listed shapes (depth > 4, more than two functions in a cycle) are outside the bound.",
+    ref="DESIGN.md section 4, C03",
+)
+CHECKS["C04"] = dict(
+    category="exploration",
+    technique="complete grids (all swizzle masks, indices, operators, constructor compositions, copy/mutate pairs) against a reference interpreter",
+    text="Finite grids enumerated completely: every read mask of length 1-4, every non-repeating write mask on every target kind, every "
+         "index, every listed operator/shape combination, every constructor composition, every copy-then-mutate pair; all variables in scope are read back.",
+    note="Trusted: refsem vector/matrix semantics; component values are distinct dyadic numbers.",
+    ref="DESIGN.md section 4, C04",
+)
+
 PENDING = {}
 
 
